@@ -188,9 +188,20 @@ def replay_file(path):
     binary = vlib.build_harness()
     res = vlib.run_sharded(binary, "crash", rec["profile"], [rec["case"]], shards=1)
     print(json.dumps(res.get("divergences"), indent=1)[:6000])
-    if res.get("divergences"):
+    unknown = 0
+    beh = {"steps": [{"op": o} for o in rec["case"].get("ops", [])]}
+    for d in res.get("divergences") or []:
+        div = {"kind": d["kind"], "op": {"op": d["point"]}, "diff": (d.get("diff") or []) + [d.get("detail", "")], "step": len(beh["steps"])}
+        kf = vlib.match_known(PROP, div, beh)
+        if kf:
+            print("KNOWN-FINDING: property=%s %s (%s)" % (PROP, kf["what"][:200], kf["id"]))
+        else:
+            unknown += 1
+    if unknown:
         print("VIOLATION property=%s replay=%s" % (PROP, path))
         return vlib.EXIT_VIOLATION
+    if res.get("divergences"):
+        return vlib.EXIT_OK
     print("replay: no divergence on the current tree")
     return vlib.EXIT_OK
 
